@@ -116,11 +116,19 @@ fn plans(prop: &str, tier: &str) -> Vec<Plan> {
                         b
                     }
                     ("C01" | "C03" | "C17", false, false) => match p {
-                        0 => vec![(6, 2, 0), (4, 3, 0), (3, 1, 1), (2, 1, 2)],
-                        1..=3 => vec![(4, 2, 0), (3, 3, 0), (3, 1, 1), (2, 1, 2)],
-                        _ => vec![(4, 1, 0), (3, 2, 0), (2, 3, 0), (2, 1, 1), (1, 1, 2)],
+                        0 => vec![(5, 2, 0), (3, 3, 0), (3, 1, 1), (2, 1, 2)],
+                        1 | 3 => vec![(4, 1, 0), (3, 2, 0), (2, 3, 0), (3, 1, 1), (2, 1, 2)],
+                        2 => vec![(3, 2, 0), (2, 1, 2)],
+                        5 => vec![(4, 1, 0), (3, 2, 0), (2, 3, 0), (2, 1, 1), (1, 1, 2)],
+                        _ => vec![(3, 1, 0), (2, 2, 0), (2, 1, 1)],
                     },
-                    ("C01" | "C03" | "C17", false, true) => vec![(3, 2, 0), (2, 2, 1), (1, 1, 2)],
+                    ("C01" | "C03" | "C17", false, true) => {
+                        if p == 4 || p == 2 {
+                            vec![(2, 1, 0), (1, 1, 2)]
+                        } else {
+                            vec![(2, 2, 0), (2, 1, 1), (1, 1, 2)]
+                        }
+                    }
                     ("C02", true, false) => vec![(2, 2, 0), (1, 3, 0), (2, 1, 1)],
                     ("C02", true, true) => vec![(2, 2, 0), (1, 2, 1)],
                     ("C02", false, false) => vec![(3, 3, 0), (2, 4, 0), (2, 2, 1), (1, 2, 2)],
@@ -200,7 +208,7 @@ fn plans(prop: &str, tier: &str) -> Vec<Plan> {
                 let mut plan = vec![vec![b'N']];
                 plan.extend(std::iter::repeat(put.clone()).take(n));
                 for (ml, muts, rate) in &memo_cfgs {
-                    if quick && !muts.is_empty() && n != 256 {
+                    if !muts.is_empty() && n != 256 {
                         continue;
                     }
                     let cfg = Cfg::new(p).flags(true, true).muts(muts, *rate, false);
@@ -210,7 +218,7 @@ fn plans(prop: &str, tier: &str) -> Vec<Plan> {
                         dev_budget: 1,
                         ref_in_key: true,
                         frame: FrameSel::Off,
-                        max_path: if quick { 2 } else { 3 },
+                        max_path: if quick || !muts.is_empty() { 2 } else { 3 },
                         ..Opts::default()
                     };
                     v.push(Plan { label: format!("P{p}/{ml}/scenario-memo{n}"), cfg, opts: o, scenario: plan.clone() });
